@@ -4,6 +4,8 @@ func extraGen(kind string, seed int64, prop string, idx int) (*Case, bool) {
 	switch kind {
 	case "graphexh":
 		return &Case{Kind: kind, G: &GraphCase{N: idx, Exhaustive: true}}, true
+	case "graphexh5":
+		return &Case{Kind: kind, G: &GraphCase{N: 5, Exhaustive: true, Part: idx, Parts: 128}}, true
 	case "graphsamp":
 		r := caseRand(seed, kind, idx)
 		return &Case{Kind: kind, G: &GraphCase{Batch: 2000, Seed: r.Int63()}}, true
@@ -63,7 +65,7 @@ func extraJobs(prop, tier string) []JobSpec {
 	case "C17":
 		return []JobSpec{{"diff:c17", n(40000, 2000000)}}
 	case "C05":
-		jobs := []JobSpec{{"graphexh", 5}, {"graphsamp", n(100, 2000)}, {"hist:cyclic", n(40000, 2000000)}}
+		jobs := []JobSpec{{"graphexh", 5}, {"graphexh5", 128}, {"graphsamp", n(100, 2000)}, {"hist:cyclic", n(40000, 2000000)}}
 		if q {
 			jobs = append(jobs, JobSpec{"smallsamp", 60000})
 		} else {
